@@ -3,7 +3,7 @@ from fractions import Fraction
 
 import numpy as np
 
-from .common import call, close
+from .common import call, close, layout_variants_agree
 
 PROP = 'C17'
 ANCHORS = ['threshold_proportional', 'threshold_absolute', 'binarize', 'normalize', 'invert', 'weight_conversion']
@@ -145,6 +145,8 @@ def run_prop(case, bct, REC):
             if tie or exact.denominator == 2:
                 REC.note_nontrivial(PROP, 'prop', W, j)
                 REC.tag(PROP, 'class:tie_at_cut' if tie else 'class:half')
+    for pp in (0.125, 0.5):
+        layout_variants_agree(REC, PROP, 'threshold_proportional', bct.threshold_proportional, W, args=(pp,))
     copy_semantics(REC, 'threshold_proportional', bct.threshold_proportional, W, (0.25,), None)
     # absolute threshold at every occurring weight and between
     vals = sorted(set(Woff[Woff != 0].tolist()))
